@@ -487,6 +487,21 @@ def check_neuron_tables(ctx, d, s, use_driver):
     ctx.count(f"neuron {d} {s} npd={npd}", nontrivial=d > 1, branch="neuron-table")
     with nengo.Network(add_to_container=False):
         arr = IdentityEnsembleArray(npd, d, s)
+        if (d + 2 * s + npd) % 3 == 1:
+            # history: the access was asked for while (some of) the ensembles were in Direct mode — refused —, the
+            # ensembles were switched back, and it is asked for again: the array must not keep anything of the refusal
+            which = arr.all_ensembles if npd % 2 else arr.all_ensembles[-1:]
+            saved = [(e, e.neuron_type) for e in which]
+            for e in which:
+                e.neuron_type = nengo.Direct()
+            for req in (arr.add_neuron_input, arr.add_neuron_output):
+                try:
+                    req()
+                except Exception:  # noqa: BLE001  (the refusal itself is not judged here)
+                    pass
+            for e, t in saved:
+                e.neuron_type = t
+            case["history"] = f"request refused while {len(which)} ensemble(s) used Direct neurons, then retried"
         try:
             ni = arr.add_neuron_input()
             no = arr.add_neuron_output()
